@@ -56,6 +56,18 @@ from pyttb.pyttb_utils import (
 )
 
 
+def _without_explicit_zeros(
+    subs: np.ndarray, vals: np.ndarray
+) -> Tuple[np.ndarray, np.ndarray]:
+    """Drop the entries whose value is exactly zero: they are not nonzeros."""
+    if vals.size == 0:
+        return subs, vals
+    keep = (vals != 0).reshape(-1)
+    if keep.all():
+        return subs, vals
+    return subs[keep], vals[keep]
+
+
 class sptensor:
     """
     SPTENSOR Class for sparse tensors.
@@ -1756,8 +1768,10 @@ class sptensor:
             if self.subs.size == 0:  # no stored entries, nothing to scale
                 return self.copy()
             return ttb.sptensor(
-                self.subs,
-                self.vals * np.atleast_1d(factor[self.subs[:, dims]])[:, None],
+                *_without_explicit_zeros(
+                    self.subs,
+                    self.vals * np.atleast_1d(factor[self.subs[:, dims]])[:, None],
+                ),
                 self.shape,
             )
         if isinstance(factor, ttb.sptensor):
@@ -1767,7 +1781,10 @@ class sptensor:
             if self.subs.size == 0:  # no stored entries, nothing to scale
                 return self.copy()
             return ttb.sptensor(
-                self.subs, self.vals * factor[self.subs[:, dims]], self.shape
+                *_without_explicit_zeros(
+                    self.subs, self.vals * factor[self.subs[:, dims]]
+                ),
+                self.shape,
             )
         if isinstance(factor, np.ndarray):
             shapeArray = np.array(self.shape)
@@ -1776,8 +1793,10 @@ class sptensor:
             if self.subs.size == 0:  # no stored entries, nothing to scale
                 return self.copy()
             return ttb.sptensor(
-                self.subs,
-                self.vals * factor[self.subs[:, dims].transpose()[0]][:, None],
+                *_without_explicit_zeros(
+                    self.subs,
+                    self.vals * factor[self.subs[:, dims].transpose()[0]][:, None],
+                ),
                 self.shape,
             )
         assert False, "Invalid scaling factor"
@@ -3013,7 +3032,9 @@ class sptensor:
         empty sparse tensor of shape (2, 2) with order F
         """
         if isinstance(other, (float, int, np.number)):
-            return ttb.sptensor(self.subs, self.vals * other, self.shape)
+            return ttb.sptensor(
+                *_without_explicit_zeros(self.subs, self.vals * other), self.shape
+            )
 
         if (
             isinstance(other, (ttb.sptensor, ttb.tensor, ttb.ktensor))
@@ -3051,7 +3072,7 @@ class sptensor:
                     v = other.factor_matrices[n][:, r][:, None]
                     tvals = tvals * v[csubs[:, n]]
                 cvals += tvals
-            return ttb.sptensor(csubs, cvals, self.shape)
+            return ttb.sptensor(*_without_explicit_zeros(csubs, cvals), self.shape)
         assert False, "Sptensor cannot be multiplied by that type of object"
 
     def __rmul__(self, other):
